@@ -5,6 +5,12 @@ func allSpecs() []*propSpec {
 		{ID: "C01", Rules: []*Rule{rulePanicP1, rulePanicP2, rulePanicP3, ruleTermT1, ruleTermLEX},
 			NotCov: "index/slice/nil panics that depend on runtime values, stack depth proportional to input, bounded latency",
 			Assume: []string{"jrpc2 v0.13.1 does not recover handler panics (read from its source)", "VTA call graph complete for non-reflective calls"}},
+		{ID: "C10", Rules: []*Rule{ruleLock},
+			NotCov: "races between the workers of one pool (they run concurrently under the launcher's lock; deciding fresh vs shared objects needs points-to information that is not available); crash-freedom of handlers (C01)",
+			Assume: []string{"jrpc2 v0.13.1 dispatch semantics read from its source: Concurrency 4, notifications wait for all earlier notifications, requests unordered, a conformant client sends nothing before the initialize reply",
+				"VTA call graph complete for non-reflective calls; handler list = MapUpdate entries of the handler.Map literal in CreateServer",
+				"field-granular abstract locations over-approximate aliasing (RacerD style); objects allocated in the accessing function are not shared",
+				"joined-pool allow-list frozen by reading (each launcher waits for one result per task before returning)"}},
 		{ID: "C08", Rules: []*Rule{ruleKeyM1, ruleKeyM2, ruleKeyM3},
 			NotCov: "fresh-start equivalence over event histories (selective re-analysis, publish/clear bookkeeping, unchanged-content shortcut)",
 			Assume: []string{"VTA call graph complete for non-reflective calls"}},
